@@ -227,9 +227,26 @@ Proof.
   - reflexivity.
 Qed.
 
+Lemma pow_pos_fast_eq x p : pow_pos_fast x p = (x ^ Zpos p)%Z.
+Proof.
+  induction p as [p IH|p IH|]; cbn [pow_pos_fast].
+  - rewrite IH. rewrite Pos2Z.inj_xI, Z.pow_add_r, Z.pow_1_r, Z.pow_twice_r by lia. ring.
+  - rewrite IH. rewrite Pos2Z.inj_xO, Z.pow_twice_r. reflexivity.
+  - rewrite Z.pow_1_r. reflexivity.
+Qed.
+Lemma zpow_fast_eq x n : (0 <= n)%Z -> zpow_fast x n = (x ^ n)%Z.
+Proof. destruct n as [|p|p]; intros H; [reflexivity|apply pow_pos_fast_eq|lia]. Qed.
+Lemma count_fast_eq Rs : forall A L, count_fast A Rs L = count_code A Rs L.
+Proof.
+  induction Rs as [|R Rs IH]; intros A L; cbn [count_fast count_code]; [apply zpow_fast_eq; lia|]. rewrite !IH. reflexivity.
+Qed.
+
 Lemma recipe_report_spec r :
   recipe_report r = (alphabet_string r, recipe_count r, char_entropy r, sp_den r).
-Proof. reflexivity. Qed.
+Proof.
+  unfold recipe_report, recipe_count, char_entropy, sp_den, alphabet_string.
+  rewrite count_fast_eq, zpow_fast_eq by lia. reflexivity.
+Qed.
 
 Example count_example_overlap :
   (* Allow: Letters, Require: Digits, RequireSets {"357"}, Length 1: three strings *)
